@@ -13,7 +13,10 @@ META = {
                  "filter_as_streams through real std::sync::mpsc channels (filter list from JSON, from a DLF file in which every "
                  "filter carries the full element set, or from a reduced DLF file in which later filters omit elements of "
                  "earlier ones; for every set without an enabled positive/negative filter and every 10th (25th) other set also with "
-                 "the filter on its own thread and a producer that pauses between the first messages); "
+                 "the filter on its own thread and a producer that pauses between the first messages); the remote stream front-end "
+                 "(StreamContext::from + process_stream_new_msgs, stream and query, messages arriving in 1..3 portions); the "
+                 "export plugin (ExportPlugin with the filter set, with and without lifecyclesToKeep, lifecycle table behind a "
+                 "read handle, every message before and after its lifecycle was looked up, exported file read back); "
                  "observations that differ from TLC's prediction, a random sample of the others and seeded random larger "
                  "sets/streams are validated by TLC against the contract FilterSetTrace.tla",
     "design_ref": "DESIGN.md section 6, C12",
@@ -193,9 +196,19 @@ def check(ctx):
     # (c,d) replay on the real code + seeded random sets and streams
     trace = ctx.path("trace.ndjson")
     nrand = 400 if quick else 5000
-    info = drive(binp, ["--tables", ctx.path("tables.json"), "--scenarios", scn, "--seed", str(ctx.seed), "--random", str(nrand),
+    tmp = ctx.path("tmp")
+    os.makedirs(tmp, exist_ok=True)
+    info = drive(binp, ["--tmp", tmp, "--export-every", "2" if quick else "1", "--tables", ctx.path("tables.json"), "--scenarios", scn, "--seed", str(ctx.seed), "--random", str(nrand),
                         "--sample", "120" if quick else "600", "--paced-every", "10" if quick else "25", "--paced-random", "30" if quick else "100", "--max-len", "40" if quick else "200"], trace)
     st = info["stats"]
+    for k in ("stream_context_runs_1_portions", "stream_context_runs_2_portions", "stream_context_runs_3_portions",
+              "stream_context_runs_event_filters_only", "stream_context_runs_other_sets", "export_runs_without_lifecycles_to_keep",
+              "export_runs_with_lifecycles_to_keep", "export_runs_lifecycles_to_keep_and_negative_filter_with_lifecycles"):
+        paths[k] = st.get(k, 0)
+        if not paths[k]:
+            raise c.ToolError("vacuity: no case of kind %s" % k)
+    paths["export_msgs_processed"] = st.get("export_msgs", 0)
+    paths["export_msgs_exported"] = st.get("export_exported", 0)
     paths["paced_producer_runs_inert_only_sets"] = st.get("paced_runs_inert_only_sets", 0)
     paths["paced_producer_runs_active_sets"] = st.get("paced_runs_active_sets", 0)
     if not paths["paced_producer_runs_inert_only_sets"] or not paths["paced_producer_runs_active_sets"]:
@@ -208,7 +221,7 @@ def check(ctx):
     v = c.validate_trace(ctx, "filterset", "FilterSetTrace.tla", trace, timeout=3000, xmx="8g")
     ctx.add_tlc("trace-validation", v.res)
     cases = c.split_cases(trace)
-    ctx.evaluations = st.get("set_decisions", 0) + st.get("stream_msgs", 0)
+    ctx.evaluations = st.get("set_decisions", 0) + st.get("stream_msgs", 0) + st.get("export_msgs", 0)
     ctx.traces_validated = info["cases_written"] - len(v.violations)
     ctx.distinct_nontrivial = distinct
     ctx.rule = ("an evaluation = one decision of the real code on one message (match_filters on one container, or one input "
